@@ -90,6 +90,13 @@ func (ex *Exec) invoke(fv *Func, args []Value, site ssa.Instruction) Value {
 			return nf(ex, site, args)
 		}
 	}
+	if pk := fnPkgPath(fn); pk == "github.com/google/logger" {
+		// logging has no effect on any property: arguments were evaluated by the caller
+		return ex.zeroResults(fn)
+	}
+	if ex.eng.Cfg.SkipInit[name] {
+		return ex.zeroResults(fn)
+	}
 	if !ex.eng.transparent(fn) {
 		ex.fail("UNMODELLED callee %s", name)
 	}
@@ -100,6 +107,34 @@ func (ex *Exec) invoke(fv *Func, args []Value, site ssa.Instruction) Value {
 		return ex.callMerged(fn, args, fv.Env, site)
 	}
 	return ex.callFunc(fn, args, fv.Env, site)
+}
+
+func fnPkgPath(fn *ssa.Function) string {
+	if fn.Pkg != nil {
+		return fn.Pkg.Pkg.Path()
+	}
+	if o := fn.Object(); o != nil && o.Pkg() != nil {
+		return o.Pkg().Path()
+	}
+	if fn.Parent() != nil {
+		return fnPkgPath(fn.Parent())
+	}
+	return ""
+}
+
+func (ex *Exec) zeroResults(fn *ssa.Function) Value {
+	res := fn.Signature.Results()
+	switch res.Len() {
+	case 0:
+		return nil
+	case 1:
+		return ex.zero(res.At(0).Type())
+	}
+	t := make(Tuple, res.Len())
+	for i := range t {
+		t[i] = ex.zero(res.At(i).Type())
+	}
+	return t
 }
 
 func (e *Engine) vpPath() string { return "github.com/google/go-tdx-guest/zzvp." }
